@@ -160,6 +160,9 @@ impl FrameReader for QuicFrameReader {
     }
 }
 
+// fragment ids must be unique per connection, not per session: several sessions share one connection
+static NEXT_FRAME_ID: std::sync::atomic::AtomicU16 = std::sync::atomic::AtomicU16::new(0);
+
 struct QuicFrameWriter {
     conn: Connection,
     session_id: u32,
@@ -193,6 +196,8 @@ impl FrameWriter for QuicFrameWriter {
                 "Datagram not allowed for this connection",
             ));
         }
+        // the peer reassembles all sessions of a connection in one place, keyed by this id only
+        self.frame_id = NEXT_FRAME_ID.fetch_add(1, std::sync::atomic::Ordering::Relaxed);
         let fragments = Fragments::make_fragments(mtu.unwrap(), &mut self.frame_id, frame);
         let mut len = 0;
         for fragment in fragments {
